@@ -84,6 +84,9 @@ def lossy_sites(fn):
     return out
 
 
+FULL_MASK_NARROWS = True
+
+
 def sites(fn):
     out = []
     for i, x in fn.ex.items():
@@ -108,7 +111,10 @@ def sites(fn):
                 if w is not None:
                     m = fn.e(fn.strip(b))
                     if m and m.get("cv") is not None and 0 <= m["cv"] < (1 << db):
-                        w = None          # constant field extraction
+                        # constant field extraction - unless the mask is the whole target width of a *signed* value: `uint32_t(W & 0xFFFFFFFF)`
+                        # keeps the low half of a displacement and drops the rest exactly like the plain cast does
+                        if not (FULL_MASK_NARROWS and m["cv"] == (1 << db) - 1 and not is_unsigned(fn, a)):
+                            w = None
                     masked = True
                     break
         if w is None:
